@@ -116,7 +116,7 @@ PENDING = {
 }
 
 ALL = [f"C{i:02d}" for i in range(1, 20)]
-ENABLED = ["C03", "C06", "C07", "C08", "C09", "C10", "C11", "C12", "C13", "C14", "C15", "C17", "C18"]
+ENABLED = ["C01", "C03", "C06", "C07", "C08", "C09", "C10", "C11", "C12", "C13", "C14", "C15", "C17", "C18"]
 
 
 def main():
